@@ -332,7 +332,7 @@ func (f *SimFile) Name() string { return f.path }
 // ---------------------------------------------------------------- clock
 
 func Now() time.Time {
-	t := time.Unix(0, 0).Add(time.Duration(clockMs)*time.Millisecond + time.Duration(cfg.ClockNs)).UTC()
+	t := time.UnixMilli(clockMs).Add(time.Duration(cfg.ClockNs)).UTC()
 	record("NOW", "", clockMs)
 	step := int64(1)
 	if clockIdx < len(cfg.ClockStepsMs) {
